@@ -28,8 +28,13 @@ from harness import core, fsbox, sched, tlc
 from checks import loader_common as lc
 
 SCENARIOS = ['main_edit_dir_override', 'dir_edit', 'defaults_permissive', 'deprecated', 'alias_eval', 'dir_edit_linked', 'merge_mode_dir_edit',
-             'empty_main_dir_edit', 'defaults_override_removed', 'dir_two_files', 'deprecated_override_removed', 'dir_only_edit']
+             'empty_main_dir_edit', 'defaults_override_removed', 'dir_two_files', 'deprecated_override_removed', 'dir_only_edit', 'deprecated_alias_old_defaults']
 MERGE_MODE = {'merge_mode_dir_edit'}
+OLD_DEFAULTS = {'deprecated_alias_old_defaults'}       # scenarios that run with enforce_new_defaults off
+
+
+def cfg_for(sc, text):
+    return text.replace('EnforceNew = TRUE', 'EnforceNew = FALSE') if sc in OLD_DEFAULTS else text
 NAMES = ['n', 'm', 'o', 'u', 'default']
 ROLES = ['a', 'b', 'd1r', 'd2r', 'dflt', 'old', 'nobody']
 
@@ -60,6 +65,7 @@ def R(*rs):
 
 ALIAS_M = {'k': 'alias', 'n': 'm'}
 ALIAS_O = {'k': 'alias', 'n': 'o'}
+ALIAS_N = {'k': 'alias', 'n': 'n'}
 ANY = {'k': 'any'}
 
 
@@ -79,6 +85,10 @@ def scenario_files(sc):
         return {'main': {'u': R('a')}, 'd1/a': {'n': ALIAS_M, 'm': R('a')}}, {'d1/a': {'m': R('b'), 'n': ALIAS_O, 'o': R('a')}}
     if sc == 'deprecated_override_removed':
         return {'main': {'o': R('a'), 'm': R('a')}}, {'main': {'m': R('b')}}
+    if sc == 'deprecated_alias_old_defaults':
+        # the file mentions the old name only as an alias of the new one (what the sample generator suggests);
+        # enforce_new_defaults is off: the new name is decided by "new default or old default"
+        return {'main': {'o': ALIAS_N, 'm': R('a')}}, {'main': {'o': ALIAS_N, 'm': R('b')}}
     if sc == 'dir_only_edit':
         return {'d1/a': {'n': R('d1r'), 'm': R('a')}}, {'d1/a': {'m': R('b')}}
     if sc == 'dir_two_files':
@@ -99,7 +109,7 @@ def defaults_for(sc):
         return [policy.RuleDefault('n', 'role:dflt', deprecated_for_removal=True, deprecated_reason='r', deprecated_since='s')]
     if sc in ('defaults_permissive', 'empty_main_dir_edit', 'dir_only_edit'):
         return [policy.RuleDefault('n', 'role:dflt')]
-    if sc in ('deprecated', 'deprecated_override_removed'):
+    if sc in ('deprecated', 'deprecated_override_removed', 'deprecated_alias_old_defaults'):
         return [policy.RuleDefault('n', 'role:dflt', deprecated_rule=policy.DeprecatedRule('o', 'role:old', deprecated_reason='r', deprecated_since='s'))]
     return []
 
@@ -120,7 +130,7 @@ class Env:
         for f, c in self.old.items():
             self._write(f, c)
         # (the configured-but-absent optional directory comes FIRST in policy_dirs)
-        self.e = lc.new_enforcer(self.box, 'plain', True, defaults=defaults_for(sc), overwrite=sc not in MERGE_MODE, absent_first=True)
+        self.e = lc.new_enforcer(self.box, 'plain', sc not in OLD_DEFAULTS, defaults=defaults_for(sc), overwrite=sc not in MERGE_MODE, absent_first=True)
         self.e.load_rules()
 
     def _write(self, f, c):
@@ -357,7 +367,7 @@ def judge(sc, cases, invariant):
         # leaves a wrong rule store behind under Conforms (TLC reports the first violated invariant of a state)
         # (NoDrift comes last: drift is only counted for cases whose verdict is fine)
         inv = 'AtomicOK\nINVARIANT Conforms\nINVARIANT NoDrift' if invariant == 'Conforms' else invariant
-        res = tlc.run('Conf_LoaderMT', CONF_CFG % (sc, 'FALSE', 'FALSE' if sc in MERGE_MODE else 'TRUE', inv), env={'VERIF_CASES': path}, cont=True, timeout=3000)
+        res = tlc.run('Conf_LoaderMT', cfg_for(sc, CONF_CFG % (sc, 'FALSE', 'FALSE' if sc in MERGE_MODE else 'TRUE', inv)), env={'VERIF_CASES': path}, cont=True, timeout=3000)
     finally:
         os.unlink(path)
     bad = {}
@@ -379,9 +389,9 @@ def run(ctx):
         SCENARIOS = [x for x in SCENARIOS if x in os.environ['VERIF_C20_ONLY'].split(',')]
     for sc in SCENARIOS:
         ow = 'FALSE' if sc in MERGE_MODE else 'TRUE'
-        res = tlc.run('MC_LoaderMT', MC_CFG % (sc, 'TRUE', ow), timeout=3000)
+        res = tlc.run('MC_LoaderMT', cfg_for(sc, MC_CFG % (sc, 'TRUE', ow)), timeout=3000)
         ctx.add_mc('MC_LoaderMT(%s,Locked)' % sc, res)          # the repaired design must satisfy C20
-        res = tlc.run('MC_LoaderMT', MC_CFG % (sc, 'FALSE', ow), cont=True, timeout=3000)
+        res = tlc.run('MC_LoaderMT', cfg_for(sc, MC_CFG % (sc, 'FALSE', ow)), cont=True, timeout=3000)
         ctx.add_mc('MC_LoaderMT(%s,as-implemented)' % sc, res, must_hold=False)
         design[sc] = sorted({v['name'] for v in res.violations})
         ctx.note('design level, %s, code as implemented (no lock): TLC counterexamples for %s' % (sc, design[sc] or 'nothing'))
@@ -410,7 +420,8 @@ def run(ctx):
                 'defaults_override_removed': [('n', 'nobody'), ('n', 'a'), ('n', 'dflt'), ('u', 'nobody')],
                 'dir_two_files': [('n', 'a'), ('n', 'd1r'), ('m', 'a'), ('m', 'b'), ('m', 'd2r')],
                 'deprecated_override_removed': [('n', 'a'), ('n', 'dflt'), ('m', 'a'), ('m', 'b'), ('n', 'old')],
-                'dir_only_edit': [('n', 'd1r'), ('n', 'dflt'), ('m', 'a'), ('m', 'b')]}[sc]
+                'dir_only_edit': [('n', 'd1r'), ('n', 'dflt'), ('m', 'a'), ('m', 'b')],
+                'deprecated_alias_old_defaults': [('n', 'old'), ('n', 'dflt'), ('n', 'nobody'), ('m', 'a'), ('m', 'b')]}[sc]
         # park points: in the quick tier those line events of the reloading call at which the shared
         # store (contents, file-rule record, default rule) has just changed - every distinct window is
         # visited once - plus a regular sample; in the thorough tier every line event
